@@ -22,8 +22,12 @@ PROP = "C19"
 RULE = ("single thread: one case = one call history (3 warm-up calls + 40 random calls, thorough: every 4th has 120) over the 30 exported SFile* functions "
         "drawn by one of 5 weight profiles; handle arguments are drawn from {live, closed, orphan (its archive was closed), live handle of another table, 0, 1, "
         "usize::MAX, live+1, live-1, next-id-to-be-issued}; names from {present in 3 spellings, absent, empty, 300 chars, (listfile)}; buffer sizes include 0, "
-        "exact fit, one short, oversize to_read. 14 scripted probe histories precede the random ones (exactness of archive close, read/seek boundaries, every "
-        "buffer size of the name/info calls, every function x forged handle, and the trigger predicates of calls that never return). Oracle per call: model of "
+        "exact fit, one short, oversize to_read. 15 scripted probe histories precede the random ones (exactness of archive close, read/seek boundaries, every "
+        "buffer size of the name/info calls, every function x forged handle, the trigger predicates of calls that never return, and a sweep of search masks: every "
+        "fixture x every listed name x 12 mask shapes with '*' / '?' inserted at / replacing / surrounding every position of the name, each searched to exhaustion). "
+        "Masked searches (SFileFindFirstFile / SFileFindNextFile; in random histories half of the masks are derived from the archive's own names the same way) are judged "
+        "against an independent glob model applied to the Rust list(): a search that ran to its end must have produced every listed name the mask selects, every "
+        "produced name must be selected by the mask, and a search that finds nothing must have nothing to find. Oracle per call: model of "
         "the handle tables (valid iff issued, right table, not closed, archive not closed) and the Rust API on the same archive file (read-only handles) or a "
         "shadow MutableArchive driven in lock-step on a byte-identical copy (mutable handles). threads: one case = one run of N threads x 160 (300) calls, checked "
         "offline from the call/return log. distinct = distinct (profile, plan hash) histories / distinct (N, mutable, yield, close points) thread plans; a history is "
@@ -36,6 +40,9 @@ ASSUME = [
     "names longer than 259 bytes cannot be represented in SFILE_FIND_DATA; they are compared by their 259-byte prefix",
     "seeks whose arithmetic target lies outside [0, length] are not compared beyond 'returned position within [0, length]'",
     "re-entrant calls from inside the SFileEnumFiles callback are not driven; caller buffers are 8-byte aligned",
+    "search masks: '*' = any run of characters incl. none and incl. backslashes, '?' = exactly one character, other characters match themselves without regard to "
+    "ASCII case (as name lookups do), the whole name must be covered; NULL, '*' and '*.*' select everything; the empty mask and non-ASCII masks / names are not judged; "
+    "SFileEnumFiles documents plain '*' only and its masked results are only required to be listed names",
     "random histories stay off three trigger predicates whose calls never return (SFILE_VERIFY_ALL_FILES on an archive listing a regular file; an add into a "
     "full hash table; a directory as archive path) and off PKWare compression; each predicate has its own probe case",
     "in threaded runs the time stamps are taken at the caller boundary, so 'called after the close returned' is sound but not complete",
